@@ -1081,4 +1081,60 @@ fn probe(text: &str, seed: u64) {
     for m in &st.stats.hint_panics {
         println!("HINT-PANIC: {m}");
     }
+    // every edge (mandatory or not) followed from the root's ResolveInfo, to look at what the
+    // non-mandatory look-ahead API reports
+    let q = InterpretedQueryProbe { q: c.indexed.clone() };
+    q.dump(&c);
+}
+
+struct InterpretedQueryProbe {
+    q: Arc<IndexedQuery>,
+}
+
+struct DumpAdapter {
+    inner: GraphAdapter,
+    q: Arc<IndexedQuery>,
+}
+
+fn dump_all<I: VertexInfo>(q: &IndexedQuery, info: &I, depth: usize, path: &str) {
+    let vid = info.vid();
+    for p in prop_names(q, vid) {
+        if let Some(c) = info.statically_required_property(&p) {
+            println!("ALL-EDGES {path} v{} {p}: static {}", vid_n(vid), show_cand(&c));
+        }
+    }
+    if depth == 0 {
+        return;
+    }
+    for name in edge_names(q, vid) {
+        for e in info.edges_with_name(&name) {
+            let path2 = format!("{path}/{name}(e{}{})", eid_n(e.eid()), if e.is_mandatory() { "m" } else { "o" });
+            dump_all(q, e.destination(), depth - 1, &path2);
+        }
+    }
+}
+
+impl Adapter<'static> for DumpAdapter {
+    type Vertex = u64;
+    fn resolve_starting_vertices(&self, edge_name: &Arc<str>, parameters: &EdgeParameters, resolve_info: &ResolveInfo) -> VertexIterator<'static, u64> {
+        dump_all(&self.q, resolve_info, 3, "R1");
+        self.inner.resolve_starting_vertices(edge_name, parameters, resolve_info)
+    }
+    fn resolve_property<V: AsVertex<u64> + 'static>(&self, contexts: ContextIterator<'static, V>, type_name: &Arc<str>, property_name: &Arc<str>, resolve_info: &ResolveInfo) -> ContextOutcomeIterator<'static, V, FieldValue> {
+        self.inner.resolve_property(contexts, type_name, property_name, resolve_info)
+    }
+    fn resolve_neighbors<V: AsVertex<u64> + 'static>(&self, contexts: ContextIterator<'static, V>, type_name: &Arc<str>, edge_name: &Arc<str>, parameters: &EdgeParameters, resolve_info: &ResolveEdgeInfo) -> ContextOutcomeIterator<'static, V, VertexIterator<'static, u64>> {
+        dump_all(&self.q, &resolve_info.destination(), 3, &format!("E{}", eid_n(resolve_info.eid())));
+        self.inner.resolve_neighbors(contexts, type_name, edge_name, parameters, resolve_info)
+    }
+    fn resolve_coercion<V: AsVertex<u64> + 'static>(&self, contexts: ContextIterator<'static, V>, type_name: &Arc<str>, coerce_to_type: &Arc<str>, resolve_info: &ResolveInfo) -> ContextOutcomeIterator<'static, V, bool> {
+        self.inner.resolve_coercion(contexts, type_name, coerce_to_type, resolve_info)
+    }
+}
+
+impl InterpretedQueryProbe {
+    fn dump(&self, c: &EngineCase) {
+        let ad = Arc::new(DumpAdapter { inner: GraphAdapter::new(c.dataset.clone()), q: self.q.clone() });
+        let _ = run_with(ad, c.indexed.clone(), c.args.clone());
+    }
 }
